@@ -17,6 +17,7 @@ import (
 	"os"
 	"sort"
 	"strings"
+	"sync"
 
 	restful "github.com/emicklei/go-restful"
 	corev1 "k8s.io/api/core/v1"
@@ -1001,13 +1002,34 @@ func main() {
 	d := &driver{rng: rng, out: json.NewEncoder(wr)}
 	hangs := 0
 	if *schedFile != "" {
-		for i, sch := range loadSchedules(*schedFile) {
-			d.replay(i, sch)
-			if d.hung {
+		// schedules are independent worlds: replay them concurrently, write the traces in order
+		scheds := loadSchedules(*schedFile)
+		bufs := make([]*bytes.Buffer, len(scheds))
+		hung := make([]bool, len(scheds))
+		sem := make(chan struct{}, 16)
+		var wg sync.WaitGroup
+		for i := range scheds {
+			wg.Add(1)
+			sem <- struct{}{}
+			go func(i int) {
+				defer wg.Done()
+				defer func() { <-sem }()
+				bufs[i] = bytes.NewBuffer(nil)
+				dd := &driver{rng: rand.New(rand.NewSource(*seed + int64(i))), out: json.NewEncoder(bufs[i])}
+				dd.replay(i, scheds[i])
+				hung[i] = dd.hung
+			}(i)
+		}
+		wg.Wait()
+		lines := 0
+		for i := range scheds {
+			lines += bytes.Count(bufs[i].Bytes(), []byte("\n"))
+			_, _ = wr.Write(bufs[i].Bytes())
+			if hung[i] {
 				hangs++
 			}
 		}
-		fmt.Fprintf(os.Stderr, "ipamdrive: replayed schedules, %d lines, %d hangs\n", d.nLines, hangs)
+		fmt.Fprintf(os.Stderr, "ipamdrive: replayed %d schedules, %d lines, %d hangs\n", len(scheds), lines, hangs)
 		if hangs > 0 {
 			os.Exit(3)
 		}
